@@ -337,11 +337,40 @@ def work(idx, chunk, seed, mode, n_random):
             if len(text) > 6000:
                 continue
             judge(part, probe, text, t, "random")
+            if rng.random() < 0.03:
+                # the same (defined) text with something stray after it has no value: it must not be answered with a number
+                judge_no_value(part, probe, text + rng.choice(STRAY), "stray tokens after a complete expression")
+        if idx == 0:
+            for text in NO_VALUE:
+                judge_no_value(part, probe, text, "undefined or malformed")
     _NOREPLY_SEEN += part.counters.get("no_reply_confirmed", 0)
     return part.export()
 
 
 _NOREPLY_SEEN = 0
+STRAY = [") * 3", ")", ", 5", ",000 * 2", " ) / 0", " ) mod 0", " /* c */ + 2", "\n+ 1", " ] 2", ") (2"]
+NO_VALUE = ["(1 + 2)) * 3", "1 + 2) * 3", "1,000 * 2", "1,5 + 1", "7 ) mod 0", "1 ) / 0", "1 /* c */ + 2",
+            "0^-0.5", "0^(-3|2)", "0 ^ -1.5", "0^-(1|2)", "0.0^-0.25"]
+
+
+def judge_no_value(part, probe, text, why):
+    part.evaluations += 1
+    r = probe.eval(text, timeout=10, spans=False, json=False)
+    if "timeout" in r or "died" in r:
+        part.inconclusive_event("no reply", {"query": text[:200]})
+        return
+    if r.get("panics"):
+        p = r["panics"][0]
+        part.violation(dict(panic_sig(p), expected="error"), {"query": text, "panic": p}, "panic instead of an error")
+        return
+    kind = (r.get("r") or {}).get("kind")
+    if kind in ("number", "duration", "conversion"):
+        part.violation({"kind": "number_for_text_without_value", "why": why, "tail": _norm(text[-12:])},
+                       {"query": text, "reply": r.get("text")},
+                       "a number was returned for a text that has no value (stray tokens ignored / undefined result)")
+    else:
+        part.count("no_value_refused")
+        part.seen("novalue|" + text)
 
 
 # -------------------------------------------------------------------- workloads
